@@ -8,7 +8,7 @@ from props import C03
 ID = "C05"
 PROP_FILE = "props/C05.v"
 COQ_TARGETS = ["props/C05.v"]
-THEOREMS = ["C05_emit_observing", "C05_solo_delivery", "C05_unsubscribed_silent", "C05_order", "C05_value", "C05_proj_sound"]
+THEOREMS = ["C05_emit_observing", "C05_solo_delivery", "C05_unsubscribed_silent", "C05_order", "C05_value", "C05_proj_sound", "C05_frag_stack"]
 TRUSTED_BASE = [
     "Coq 8.16.1 kernel, vm_compute for the per-tracer projection certificates",
     "model/Rt.v (runtime fold; decision functions regenerated from tracer.py / emit_event.py by gen_emitret.py; loops tied by C04's K-rt correspondence)",
